@@ -18,6 +18,7 @@ R17.1 in start_elem no call that can register a namespace follows the loop that 
 R17.2 NamespaceMap::insert is reachable only from start_elem; R17.3 escape table (text: & <; attributes: & " ; both:
 CR) reversible, and every attribute-context write is escaped (including namespace URIs); R17.4 one scope push per
 start_elem and one pop per end_elem; R17.5 reviewed normal forms of xml5ever::serialize.
+R17.6 un-declaration of an inherited default namespace; R17.3 also guards of whole-text shortcuts.
 """
 ASSUMPTIONS = ["NamespaceMap::insert/get behave as their names say (NF-reviewed under C16)"]
 AREA = "xml_serialize"
